@@ -7,6 +7,7 @@ package main
 
 import (
 	"go/types"
+	"strconv"
 
 	"golang.org/x/tools/go/ssa"
 )
@@ -20,9 +21,15 @@ type Path struct {
 	// end: the Return reached, or nil when the path stopped at a stop block
 	ret  *ssa.Return
 	stop *ssa.BasicBlock
+	// resOv: results of a path continued through a delegated helper (deepPaths)
+	resOv []*Term
+	via   []*ssa.Function
 }
 
 func (p *Path) results() []*Term {
+	if p.resOv != nil {
+		return p.resOv
+	}
 	if p.ret == nil {
 		return nil
 	}
@@ -130,6 +137,85 @@ func (P *Prog) allPaths(fn *ssa.Function) []*Path {
 	return P.enumPaths(fn, fn.Blocks[0], nil, false)
 }
 
+// deepPaths: the feasible entry-to-return paths of fn where a path that hands
+// through the whole result tuple of one in-package helper call (`return
+// h(...)`) is continued through the helper's own paths: conditions and
+// results of the helper are substituted with the call's arguments. Extracting
+// the tail of a function into a helper leaves the set of deep paths unchanged.
+func (P *Prog) deepPaths(fn *ssa.Function) []*Path {
+	return P.deepPathsD(fn, 0, map[*ssa.Function]bool{fn: true})
+}
+
+func (P *Prog) deepPathsD(fn *ssa.Function, depth int, on map[*ssa.Function]bool) []*Path {
+	var out []*Path
+	for _, p := range P.allPaths(fn) {
+		if !p.feasible() {
+			continue
+		}
+		res := p.results()
+		var call *Term
+		if depth < 3 && len(res) >= 1 {
+			all := true
+			for i, r := range res {
+				var c *Term
+				switch {
+				case len(res) == 1 && r.Op == "call":
+					c = r
+				case r.Op == "res" && r.S == strconv.Itoa(i) && r.Args[0].Op == "call":
+					c = r.Args[0]
+				}
+				if c == nil || (call != nil && !c.eq(call)) {
+					all = false
+					break
+				}
+				call = c
+			}
+			if !all {
+				call = nil
+			}
+		}
+		var h *ssa.Function
+		if call != nil {
+			h = P.calleeOfTerm(call)
+			if h != nil && (!P.inPkg(h) || on[h] || h.Blocks == nil || h.Signature.Results().Len() != len(res)) {
+				h = nil
+			}
+		}
+		if h == nil {
+			out = append(out, p)
+			continue
+		}
+		m := map[string]*Term{}
+		for i, a := range call.Args {
+			m[strconv.Itoa(i)] = a
+		}
+		on[h] = true
+		for _, q := range P.deepPathsD(h, depth+1, on) {
+			np := *p
+			np.conds = append(append([]Fact{}, p.conds...), nil...)
+			np.condAt = append([]ssa.Instruction{}, p.condAt...)
+			for i, c := range q.conds {
+				np.conds = append(np.conds, normFact(c.Pred.subst(m), c.Val))
+				if i < len(q.condAt) {
+					np.condAt = append(np.condAt, q.condAt[i])
+				} else {
+					np.condAt = append(np.condAt, nil)
+				}
+			}
+			for _, r := range q.results() {
+				np.resOv = append(np.resOv, r.subst(m))
+			}
+			np.via = append(append([]*ssa.Function{}, p.via...), h)
+			np.via = append(np.via, q.via...)
+			if np.feasible() {
+				out = append(out, &np)
+			}
+		}
+		delete(on, h)
+	}
+	return out
+}
+
 // feasible reports whether the path's branch conditions are free of the
 // contradictions the enumeration can introduce by ignoring correlations: the
 // same predicate with both polarities, and for len(...) terms (which are
@@ -144,6 +230,9 @@ func (p *Path) feasible() bool {
 		pol[k] = c.Val
 	}
 	for _, c := range p.conds {
+		if c.Pred.Op == "const" && (c.Pred.S == "true" || c.Pred.S == "false") && (c.Pred.S == "true") != c.Val {
+			return false // a branch on a value that is constant on this path
+		}
 		if c.Pred.Op != "binop" {
 			continue
 		}
